@@ -118,8 +118,10 @@ def gen_type(rnd, name, used_ids, kind, derive=None, n_units=None, allow_ties=Tr
     order = list(range(len(units)))
     rnd.shuffle(order)
     t['attr_order'] = order
-    if rnd.random() < 0.5:
+    if rnd.random() < 0.6:
         t['doc'] = 'Quantity ' + name
+        if rnd.random() < 0.6:
+            t['doc_pos'] = rnd.randint(0, len(units))
     return t
 
 
